@@ -243,7 +243,7 @@ def execute_scenario(engine, scenario, tag, timeout=None, cov=False):
       digest, stats, events
     """
     sb = make_sandbox(tag)
-    timeout = timeout or getattr(engine, 'run_timeout', 60.0)
+    timeout = timeout or float(os.environ.get('DSIM_RUN_TIMEOUT', 0)) or getattr(engine, 'run_timeout', 60.0)
 
     def body(arg, emit):
         hits = _cov_start() if cov else None
